@@ -82,7 +82,8 @@ def work(desc: dict) -> Optional[dict]:
             'drops': any(v is None for v in cm_full.values()) or _has_drop(case['spec'])}
     return {'case': ptgen.case_json(case), 'impl': obs['impl'], 'grid': obs['grid'], 'line': line, 'meta': meta,
             'family': desc['family'], 'label': desc.get('label', desc['family']),
-            'toleranced': bool(desc.get('toleranced')) or desc.get('stream') == 'decimal' or desc.get('label') == 'huge-counts'}
+            'toleranced': bool(desc.get('toleranced')) or desc.get('stream') == 'decimal' or desc.get('label') == 'huge-counts',
+            'skip_spec': bool(desc.get('skip_spec'))}
 
 
 def _has_drop(spec) -> bool:
@@ -306,7 +307,7 @@ def run_descs(ctx: core.Ctx, descs: List[dict], workers: Optional[int] = None) -
 
 def replay_record(rec: dict, what: str, extra: Optional[dict] = None) -> dict:
     d = {'kind': 'pt-case', 'case': rec['case'], 'grid': [str(t) for t in rec['grid']], 'label': rec.get('label'),
-         'toleranced': bool(rec.get('toleranced'))}
+         'toleranced': bool(rec.get('toleranced')), 'skip_spec': bool(rec.get('skip_spec'))}
     if extra:
         d.update(extra)
     return d
@@ -543,7 +544,12 @@ class Checker:
             if best['case']['mm'] is not None:
                 cases.append(dict(copy.deepcopy(best['case']), mm=None))
             progressed = False
-            for r in self.evaluate_given(cases):
+            kw = {}
+            if rec.get('skip_spec'):
+                kw['skip_spec'] = True
+            if rec.get('toleranced'):
+                kw['toleranced'] = True
+            for r in self.evaluate_given(cases, **kw):
                 _d, vs, _k = self.assess(r, count=False)
                 if any(v['clause'] == viol['clause'] for v in vs) and len(r['line']) < len(best['line']):
                     best = r
